@@ -11,7 +11,6 @@ use crate::refmodel::schema::Val;
 use crate::refmodel::{RefName, B};
 use serde::{Deserialize, Serialize};
 use serde_json::{json, Value};
-use simple_dns::Packet;
 use simple_mdns::verif::{build_reply, ResourceRecordManager};
 use std::collections::{BTreeMap, BTreeSet, HashSet, VecDeque};
 
@@ -159,10 +158,24 @@ fn class_matches(class: u16, qclass: u16) -> bool {
 
 /// Ask one query in one store state; returns (signature tag, detail) for every deviation.
 pub fn judge(w: &World, store: &ResourceRecordManager<'static>, model: &RefStore, qs: &[Q], id: u16) -> Vec<(String, String)> {
+    let qn: Vec<QN> = qs.iter().map(|q| QN { name: RefName::txt(OWNERS[q.owner]), qtype: q.qtype, qclass: q.qclass, unicast: q.unicast }).collect();
+    judge_q(w, store, model, &qn, id)
+}
+
+/// A question with an arbitrary name (for worlds other than the BFS menu).
+#[derive(Clone, Debug, PartialEq, Eq, Serialize, Deserialize)]
+pub struct QN {
+    pub name: RefName,
+    pub qtype: u16,
+    pub qclass: u16,
+    pub unicast: bool,
+}
+
+pub fn judge_q(w: &World, store: &ResourceRecordManager<'static>, model: &RefStore, qs: &[QN], id: u16) -> Vec<(String, String)> {
     let mut bad = Vec::new();
     let mut query = RefPacket { id, ..Default::default() };
     for q in qs {
-        query.questions.push(RefQ { name: RefName::txt(OWNERS[q.owner]), qtype: q.qtype, qclass: q.qclass, unicast: q.unicast });
+        query.questions.push(RefQ { name: q.name.clone(), qtype: q.qtype, qclass: q.qclass, unicast: q.unicast });
     }
     let lib_query = match to_lib(&query) {
         Ok(p) => p,
@@ -172,7 +185,7 @@ pub fn judge(w: &World, store: &ResourceRecordManager<'static>, model: &RefStore
     let required: Vec<&RefRR> = auth
         .iter()
         .copied()
-        .filter(|r| qs.iter().any(|q| r.name == RefName::txt(OWNERS[q.owner]) && type_matches(r.rdata.code(), q.qtype) && class_matches(r.class, q.qclass)))
+        .filter(|r| qs.iter().any(|q| r.name == q.name && type_matches(r.rdata.code(), q.qtype) && class_matches(r.class, q.qclass)))
         .collect();
     let reply = build_reply(lib_query, store);
     match reply {
@@ -209,12 +222,12 @@ pub fn judge(w: &World, store: &ResourceRecordManager<'static>, model: &RefStore
                     continue;
                 }
                 let justified = qs.iter().any(|q| {
-                    let qn = RefName::txt(OWNERS[q.owner]);
+                    let qn = q.name.clone();
                     (ans.name == qn || ans.name.is_strict_subdomain_of(&qn)) && type_matches(ans.rdata.code(), q.qtype) && class_matches(ans.class, q.qclass)
                 });
                 if !justified {
                     let by_name = qs.iter().any(|q| {
-                        let qn = RefName::txt(OWNERS[q.owner]);
+                        let qn = q.name.clone();
                         ans.name == qn || ans.name.is_strict_subdomain_of(&qn)
                     });
                     bad.push((
@@ -509,9 +522,148 @@ pub fn run(ctx: &Ctx) {
         }
     });
     ctx.space("insertion orders: every ordered pair (and triple, thorough) of distinct records x kinds, without deduplication", perms.len() as u64, "complete");
+    // odd-shaped owners and large stores
+    {
+        let mut cases: Vec<(&str, usize, Vec<usize>, Vec<usize>)> = Vec::new();
+        let n_odd = extra_world("odd", 0).0.menu.len();
+        let all: Vec<usize> = (0..n_odd).collect();
+        cases.push(("odd", 0, all.clone(), vec![]));
+        cases.push(("odd", 0, all.iter().copied().filter(|i| i % 2 == 0).collect(), all.iter().copied().filter(|i| i % 2 == 1).collect()));
+        cases.push(("odd", 0, all.iter().copied().filter(|i| i % 2 == 1).collect(), all.iter().copied().filter(|i| i % 2 == 0).collect()));
+        for i in 0..n_odd {
+            cases.push(("odd", 0, vec![i], vec![]));
+            cases.push(("odd", 0, all.iter().copied().filter(|j| *j != i).collect(), vec![i]));
+            for j in 0..n_odd {
+                if i < j {
+                    cases.push(("odd", 0, vec![i, j], vec![]));
+                    cases.push(("odd", 0, vec![j, i], vec![]));
+                }
+            }
+        }
+        for n in [10usize, 31, 32, 33, 64, 100, 300] {
+            let all: Vec<usize> = (0..3 * n).collect();
+            cases.push(("scale", n, all.clone(), vec![]));
+            cases.push(("scale", n, all.iter().copied().filter(|i| i % 5 != 0).collect(), all.iter().copied().filter(|i| i % 5 == 0).collect()));
+        }
+        let total = std::sync::atomic::AtomicU64::new(0);
+        par_shards(ctx, &cases, |(kind, n, auth, cached), t: &mut Tally| {
+            t.evals += 1;
+            t.nontrivial += 1;
+            let (f, nq) = check_extra(kind, *n, auth, cached);
+            t.transitions += nq;
+            total.fetch_add(nq, std::sync::atomic::Ordering::Relaxed);
+            t.outcome(if f.is_empty() { "replies-exact" } else { "replies-wrong" });
+            if !f.is_empty() {
+                ctx.violations(f);
+            }
+        });
+        ctx.space(&format!("odd and large stores: {} stores (14 odd-shaped records singly, in ordered pairs, all together and all-but-one; owners with labels of 256/300/260 bytes, binary labels, a dot inside a label, the root, SRV at 1- and 2-label owners, the DNS-SD meta-query name; 10..300 hosts x (A, SRV, PTR) fully authoritative and with every fifth record cached) x every question over the world's names x 5 types x 2 classes", cases.len()), total.load(std::sync::atomic::Ordering::Relaxed), "complete");
+        ctx.sample(json!({"kind": "extra", "world": "odd", "n": 0, "auth": [0, 1], "cached": []}));
+    }
+}
+
+/// Worlds outside the BFS menu: odd-shaped owners (labels longer than 255 bytes built without
+/// validation, binary labels, a literal dot inside a label, the root), the DNS-SD meta-query
+/// name, SRV records at one- and two-label owners; and stores with hundreds of records.
+pub fn extra_world(kind: &str, n: usize) -> (World, Vec<QN>) {
+    let nm = |s: &str| RefName::txt(s);
+    let srv = |owner: RefName, port: u16, target: &str| RefRR { name: owner, class: 1, cache_flush: false, ttl: 120, rdata: typed(33, vec![Val::U16(0), Val::U16(0), Val::U16(port), Val::Name(RefName::txt(target))]) };
+    let ptr = |owner: &str, target: &str| RefRR { name: RefName::txt(owner), class: 1, cache_flush: false, ttl: 120, rdata: typed(12, vec![Val::Name(RefName::txt(target))]) };
+    let arec = |owner: RefName, ip: u32| RefRR { name: owner, class: 1, cache_flush: false, ttl: 120, rdata: typed(1, vec![Val::U32(ip)]) };
+    let mut menu: Vec<RefRR> = Vec::new();
+    let mut qnames: Vec<RefName> = Vec::new();
+    if kind == "odd" {
+        let long = |prefix: &[u8], extra: usize| {
+            let mut l = prefix.to_vec();
+            l.extend(std::iter::repeat(b'x').take(extra));
+            RefName(vec![B(l), B(b"local".to_vec())])
+        };
+        menu.push(arec(nm("host.local"), 1));
+        menu.push(arec(long(b"host", 256), 2));
+        menu.push(arec(long(b"", 300), 3));
+        menu.push(arec(long(b"host", 252), 4));
+        menu.push(srv(nm("printer.local"), 515, "host.local"));
+        menu.push(srv(nm("local"), 1, "host.local"));
+        menu.push(srv(nm("web._http._tcp.local"), 80, "host.local"));
+        menu.push(ptr("_http._tcp.local", "web._http._tcp.local"));
+        menu.push(ptr("_services._dns-sd._udp.local", "_http._tcp.local"));
+        menu.push(arec(RefName(vec![B(vec![0xff, 0x00]), B(b"local".to_vec())]), 9));
+        menu.push(arec(RefName(vec![B(b"a.b".to_vec()), B(b"local".to_vec())]), 10));
+        menu.push(arec(nm("a.b.local"), 11));
+        menu.push(RefRR { name: RefName::root(), class: 1, cache_flush: false, ttl: 120, rdata: typed(16, vec![Val::Strs(vec![B(b"root".to_vec())])]) });
+        menu.push(arec(nm("b.local"), 13));
+        for r in &menu {
+            qnames.push(r.name.clone());
+        }
+        for s in ["_dns-sd._udp.local", "_udp.local", "_tcp.local", "_services._dns-sd._udp.printer.local", "_SERVICES._DNS-SD._UDP.local", "hos.local", "hostx.local"] {
+            qnames.push(nm(s));
+        }
+    } else {
+        for i in 0..n {
+            menu.push(arec(nm(&format!("h{:03}.local", i)), i as u32));
+            menu.push(srv(nm(&format!("i{:03}._svc._tcp.local", i)), 1000 + i as u16, &format!("h{:03}.local", (i * 7) % n)));
+            menu.push(ptr("_svc._tcp.local", &format!("i{:03}._svc._tcp.local", i)));
+        }
+        for s in ["local", "_svc._tcp.local", "_tcp.local", "h000.local", "i000._svc._tcp.local", "nothing.local"] {
+            qnames.push(nm(s));
+        }
+        qnames.push(nm(&format!("h{:03}.local", n / 2)));
+        qnames.push(nm(&format!("h{:03}.local", n - 1)));
+        qnames.push(nm(&format!("i{:03}._svc._tcp.local", n - 1)));
+    }
+    qnames.sort();
+    qnames.dedup();
+    let mut qs = Vec::new();
+    for name in qnames {
+        for qtype in [1u16, 33, 12, 16, 255] {
+            for qclass in [1u16, 255] {
+                qs.push(QN { name: name.clone(), qtype, qclass, unicast: qtype == 33 });
+            }
+        }
+    }
+    let m: &'static Vec<RefRR> = Box::leak(Box::new(menu));
+    let lib = m.iter().map(|r| lib_rr(r).expect("menu record")).collect();
+    (World { menu: m, lib }, qs)
+}
+
+/// One store of an extra world: the records in `auth` registered as authoritative, those in
+/// `cached` received from the network; every question of the world judged.
+pub fn check_extra(kind: &str, n: usize, auth: &[usize], cached: &[usize]) -> (Vec<Finding>, u64) {
+    let case = json!({"kind": "extra", "world": kind, "n": n, "auth": auth, "cached": cached});
+    let r = guarded(|| {
+        let (w, qs) = extra_world(kind, n);
+        let mut store = ResourceRecordManager::new();
+        let mut model = RefStore::default();
+        for i in auth {
+            store.add_authoritative_resource(w.lib[*i].clone());
+            model.recs.insert(*i, Kind::Auth);
+        }
+        for i in cached {
+            store.add_cached_resource(w.lib[*i].clone());
+            model.recs.entry(*i).or_insert(Kind::Cached);
+        }
+        let mut bad: Vec<(String, String)> = Vec::new();
+        for q in &qs {
+            for (tag, d) in judge_q(&w, &store, &model, std::slice::from_ref(q), 0x4d52) {
+                bad.push((tag, format!("question {:?} type {} class {}: {}", q.name, q.qtype, q.qclass, d)));
+            }
+        }
+        (bad, qs.len() as u64)
+    });
+    match r {
+        Err(pn) => (vec![finding(format!("C13|extra|{}", pn.sig()), format!("{:?}", pn), case)], 0),
+        Ok((bad, n)) => {
+            let mut seen = BTreeSet::new();
+            (bad.into_iter().filter(|(t, _)| seen.insert(t.clone())).map(|(t, d)| finding(format!("C13|{}", t), crate::engine::truncate(&d, 1500), case.clone())).collect(), n)
+        }
+    }
 }
 
 pub fn replay(case: &Value) -> Vec<Finding> {
+    if case["kind"].as_str() == Some("extra") {
+        let idx = |k: &str| -> Vec<usize> { case[k].as_array().map(|a| a.iter().filter_map(|x| x.as_u64().map(|v| v as usize)).collect()).unwrap_or_default() };
+        return check_extra(case["world"].as_str().unwrap_or("odd"), case["n"].as_u64().unwrap_or(0) as usize, &idx("auth"), &idx("cached")).0;
+    }
     let hist: Vec<Op> = serde_json::from_value(case["history"].clone()).unwrap_or_default();
     let w = world();
     let mut t = Tally::default();
